@@ -129,3 +129,108 @@ SPECS = [
  dict(name='benign-close-order', kind='benign', rule='all', why='Bucket.close: dumpCollisions after hints.close',
       edits=[('store/bucket.go', '	bkt.hints.dumpCollisions()\n	bkt.hints.close()\n	bkt.dumpHtree()', '	bkt.hints.close()\n	bkt.hints.dumpCollisions()\n	bkt.dumpHtree()')]),
 ]
+SPECS += [
+ dict(name='benign-crc-empty-guard', kind='benign', rule='all', why='crc32.write guards against empty input (fixes a latent index panic)',
+      edits=[('store/crc32.go', 'func (h *crc32) write(data []byte) {\n', 'func (h *crc32) write(data []byte) {\n	if len(data) == 0 {\n		return\n	}\n')]),
+ dict(name='benign-index-append-roll-first', kind='benign', rule='all', why='index buffer rolls over first, with the matching test',
+      edits=[('store/hintindex.go', '''	idx.index[idx.currRow][idx.currCol] = hintIndexItem{keyhash, offset}
+	idx.lastoffset = offset
+	if idx.currCol >= HINTINDEX_ROW_SIZE-1 {
+		idx.currRow += 1
+		idx.index[idx.currRow] = make([]hintIndexItem, HINTINDEX_ROW_SIZE)
+		idx.currCol = 0
+	} else {
+		idx.currCol += 1
+	}''', '''	if idx.currCol >= HINTINDEX_ROW_SIZE {
+		idx.currRow += 1
+		idx.index[idx.currRow] = make([]hintIndexItem, HINTINDEX_ROW_SIZE)
+		idx.currCol = 0
+	}
+	idx.index[idx.currRow][idx.currCol] = hintIndexItem{keyhash, offset}
+	idx.lastoffset = offset
+	idx.currCol += 1''')]),
+ dict(name='benign-route-parseuint', kind='benign', rule='all', why='route ids parsed with ParseUint(…,16,8)',
+      edits=[('config/route.go', '		i64, err := strconv.ParseInt(str, 16, 16)', '		i64, err := strconv.ParseUint(str, 16, 8)')]),
+ dict(name='benign-web-default-minus2', kind='benign', rule='all', why='handleGC default -2 (still negative)',
+      edits=[('gobeansdb/web.go', 'getFormValueInt(r, "nogcdays", -1)', 'getFormValueInt(r, "nogcdays", -2)')]),
+ dict(name='benign-clear-reordered', kind='benign', rule='all', why='Request.Clear: statements reordered',
+      edits=[('memcache/protocol.go', '''	req.NoReply = false
+	if req.Item != nil {
+		req.Item = nil
+	}''', '''	if req.Item != nil {
+		req.Item = nil
+	}
+	req.NoReply = false''')]),
+ dict(name='benign-collisiongc-named', kind='benign', rule='all', why='getCollisionGC: nil test first',
+      edits=[('store/hint.go', '''	if !collision {
+		// only in mem, in new hints buffers after gc begin
+		it, ChunkID, collision = h.getItemCollision(ki.KeyHash, ki.StringKey)
+	} else if it != nil {
+		ChunkID = it.Pos.ChunkID
+	}
+	return''', '''	if collision {
+		if it != nil {
+			ChunkID = it.Pos.ChunkID
+		}
+		return
+	}
+	// only in mem, in new hints buffers after gc begin
+	it, ChunkID, collision = h.getItemCollision(ki.KeyHash, ki.StringKey)
+	return''')]),
+ dict(name='benign-gc-skip-empty-eq', kind='benign', rule='all', why='gc: empty chunk test written == 0',
+      edits=[('store/gc.go', '		if bkt.datas.chunks[gc.Src].size <= 0 {', '		if bkt.datas.chunks[gc.Src].size == 0 {')]),
+ dict(name='benign-close-range-loop', kind='benign', rule='all', why='Bucket.close: flush loop over the chunk slice',
+      edits=[('store/bucket.go', '''	for i := 0; i < bkt.datas.newHead; i++ {
+		ck := &bkt.datas.chunks[i]
+		ck.Lock()''', '''	for i := range bkt.datas.chunks[:bkt.datas.newHead] {
+		ck := &bkt.datas.chunks[i]
+		ck.Lock()''')]),
+ dict(name='benign-hintbuffer-get-renames', kind='benign', rule='all', why='HintBuffer.Get: renamed locals, early return',
+      edits=[('store/hint.go', '''	idx, found := h.index[keyhash]
+	if found {
+		if key != h.items[idx].Key {
+			iscollision = true
+			var keys map[string]int
+			keys, found = h.collisions[keyhash]
+			if found {
+				idx, found = keys[key]
+			}
+		}
+	}
+	if found {
+		it = h.items[idx]
+	}
+	return''', '''	slot, found := h.index[keyhash]
+	if !found {
+		return
+	}
+	if key != h.items[slot].Key {
+		iscollision = true
+		var group map[string]int
+		group, found = h.collisions[keyhash]
+		if found {
+			slot, found = group[key]
+		}
+	}
+	if found {
+		it = h.items[slot]
+	}
+	return''')]),
+ dict(name='benign-write-end-writeline', kind='benign', rule='all', why='Response.Write: END through writeLine',
+      edits=[('memcache/protocol.go', '			WriteFull(w, []byte("\\r\\n"))\n		}\n		io.WriteString(w, "END\\r\\n")\n', '			WriteFull(w, []byte("\\r\\n"))\n		}\n		io.WriteString(w, "END")\n		io.WriteString(w, "\\r\\n")\n')]),
+ dict(name='benign-incr-else', kind='benign', rule='all', why='StorageClient.Incr: early return → if/else',
+      edits=[('gobeansdb/store.go', '''	if !store.IsValidKeyString(key) {
+		cmem.DBRL.SetData.SubCount(1)
+		return 0, nil
+	}
+	ki := s.prepare(key, false)
+	newvalue := s.hstore.Incr(ki, value)
+	return newvalue, nil''', '''	if store.IsValidKeyString(key) {
+		ki := s.prepare(key, false)
+		return s.hstore.Incr(ki, value), nil
+	}
+	cmem.DBRL.SetData.SubCount(1)
+	return 0, nil''')]),
+ dict(name='benign-sizes-div', kind='benign', rule='all', why='Record.Sizes: rounding through division',
+      edits=[('store/item.go', '	return recSize, ((recSize + 255) >> 8) << 8', '	return recSize, (recSize + PADDING - 1) / PADDING * PADDING')]),
+]
